@@ -440,3 +440,21 @@ Qed.
     takes every value *)
 Lemma planner_type_fix_ok f v : match f with FCountStar | FCount _ | FAvg _ => True | _ => push_typed (planner_type_fix f) v = v end.
 Proof. destruct f; try exact I; cbn [planner_type_fix]; apply push_typed_any. Qed.
+
+(** * the result vectors of the hash aggregate: with intact validity bitmaps (prepared repair of
+      C11-K11) every group row is key ++ typed results; as the code is, a second NULL in a typed
+      column reads back as the default value *)
+Lemma hash_agg2_rows_fix tys : forall gs, hash_agg2_rows false tys gs = map (group_row2 tys) gs.
+Proof.
+  unfold hash_agg2_rows. induction gs as [|g t IH]; [reflexivity|].
+  cbn [map combine fst snd]. f_equal. exact IH.
+Qed.
+Lemma hash_agg2_fix_l m gcols aggs tys cs :
+  hash_agg2_fix m gcols aggs tys cs
+  = let gs := hash_groups2 m gcols aggs (rows_of cs) in
+    if existsb (fun g => existsb st_panic (snd g)) gs then Panic else Ok (map (group_row2 tys) gs).
+Proof. unfold hash_agg2_fix, hash_agg2_v. cbn zeta. now rewrite hash_agg2_rows_fix. Qed.
+Lemma typed_vector_second_null_refuted_l : exists cs,
+  hash_agg2 Checked [0%nat] [FAvg 1%nat] [TFloat] cs = Ok [[VInt 1; VNull]; [VInt 2; VFloat 0]]
+  /\ hash_agg2_fix Checked [0%nat] [FAvg 1%nat] [TFloat] cs = Ok [[VInt 1; VNull]; [VInt 2; VNull]].
+Proof. exists [mkChunk [[VInt 1; VNull]; [VInt 2; VNull]] None]. split; reflexivity. Qed.
